@@ -65,6 +65,22 @@ pub(crate) fn spi() -> &'static mut SpiLog {
     unsafe { &mut *core::ptr::addr_of_mut!(SPI) }
 }
 
+/// transaction `i` of the log, selected with constant indices (a symbolic index into the array of
+/// structs produced a spurious counterexample in CBMC that did not reproduce natively, cf. DESIGN R4)
+pub(crate) fn tx(i: usize) -> Tx {
+    let l = spi();
+    macro_rules! sel { ($($k:expr),*) => { $( if i == $k { return l.t[$k]; } )* }; }
+    sel!(0, 1, 2, 3, 4, 5, 6, 7, 8, 9, 10, 11, 12, 13, 14, 15, 16, 17, 18, 19, 20, 21, 22, 23);
+    TX0
+}
+/// script byte (row, col) with the row selected by constant indices
+pub(crate) fn script_at(row: usize, col: usize) -> u8 {
+    let l = spi();
+    macro_rules! sel { ($($k:expr),*) => { $( if row == $k { return l.script[$k][col % MAXRB]; } )* }; }
+    sel!(0, 1, 2, 3, 4, 5, 6, 7, 8, 9, 10, 11, 12, 13, 14, 15, 16, 17, 18, 19, 20, 21, 22, 23);
+    0
+}
+
 pub(crate) struct MockSpi;
 
 impl MockSpi {
